@@ -190,6 +190,13 @@ Theorem C07_planner_linear_bound : forall tyorder args s pm out,
 Proof. exact accepted_solve_never_out_of_fuel. Qed.
 Print Assumptions C07_planner_linear_bound.
 
+(* the included-sets work-list finishes on every set (each iteration removes one unit of the total size of the
+   trees on the list, whether the popped set was visited or not) *)
+Theorem C19_show_included_sets_terminates : forall key root,
+  exists res, Show.imports_run (2 * Show.nsize root + 2) key [root] [] [] = Some res.
+Proof. exact Show.show_imports_terminates. Qed.
+Print Assumptions C19_show_included_sets_terminates.
+
 (* ------------------------------------------------------------------ C09 *)
 Theorem C09_results : forall rs c e, func_output rs = FoOk c e <-> legal_results rs c e.
 Proof. exact func_output_spec. Qed.
